@@ -36,8 +36,10 @@ type c06Case struct {
 // slowLogger delays Error(): the router logs a recovered panic before it Nacks the message
 type slowLogger struct{ watermill.NopLogger }
 
-func (slowLogger) Error(msg string, err error, fields watermill.LogFields) { time.Sleep(40 * time.Millisecond) }
-func (l slowLogger) With(watermill.LogFields) watermill.LoggerAdapter       { return l }
+func (slowLogger) Error(msg string, err error, fields watermill.LogFields) {
+	time.Sleep(40 * time.Millisecond)
+}
+func (l slowLogger) With(watermill.LogFields) watermill.LoggerAdapter { return l }
 
 type closeSpy struct {
 	message.Subscriber
